@@ -235,7 +235,9 @@ def main(argv):
         'violations': len(violations),
     }
     os.makedirs(os.path.join(VERIF, 'evidence'), exist_ok=True)
-    if not harness_errors:
+    # runs against a scratch copy (mutation / seeded-change tooling) must not
+    # overwrite the evidence of the real tree
+    if not harness_errors and not os.environ.get('VV_REPO'):
         with open(os.path.join(VERIF, 'evidence', pid + '.json'), 'w') as f:
             json.dump(evidence, f, indent=1, default=repr)
 
